@@ -636,6 +636,33 @@ func c09(c *core.Ctx) {
 
 	// ---------------------------------------------------------------- R5
 	if c.Rule("R5", "malformed header text cannot crash the parser (index expressions in range) and leaves the context without a deadline, returning no error", 3) {
+		// the handler's clock starts when the request head has arrived: in the HTTP handler literals the timeout
+		// header is turned into the deadline before anything waits for the request body (a deadline computed after
+		// the upload lies later than the caller's by the time the upload took)
+		for _, hc := range httpHandlerClosures(p) {
+			if len(hc.Fn.Params) != 2 {
+				continue
+			}
+			rPar := hc.Fn.Params[1]
+			isDec := func(in ssa.Instruction) bool {
+				call, ok := in.(*ssa.Call)
+				if !ok {
+					return false
+				}
+				_, isD := headerDecoderCall(call)
+				return isD
+			}
+			bad := token.NoPos
+			core.Instrs(hc.Fn, func(in ssa.Instruction) {
+				if _, isDefer := in.(*ssa.Defer); isDefer {
+					return
+				}
+				if readsRequestBody(in, rPar, 0) && !core.MustPass(core.Entry(hc.Fn), in, isDec) {
+					bad = in.Pos()
+				}
+			})
+			c.Check(bad == token.NoPos, core.FuncName(hc.Fn)+":deadline-applied-before-the-body-is-awaited", hc.Fn.Pos(), "no read of the request body precedes the decoding of the timeout header", "the request body is read before the timeout header is turned into the handler's deadline: the timeout then runs from the end of the upload, so the handler's deadline is later than the caller's by however long the body took to arrive")
+		}
 		if parser == nil {
 			c.Missing("timeout parser")
 		} else {
